@@ -5,6 +5,7 @@
 //     NewWithMessagef(...).CausedBy(...)... as the list of its elements (a heimdall sentinel or "dyn" for any other
 //     expression), separately for the entry method (Execute / GetAuthData: where credentials are looked for and
 //     missing ones are reported) and for the rest of the file (everything that runs after a credential was found);
+//   - the signature algorithms of supportedAlgorithms();
 //   - per source file, how often heimdall.ErrArgument is mentioned at all, and the arguments of the CausedBy calls
 //     that are not part of such a constructor expression;
 //   - the condition under which compositeSubjectCreator.Execute goes on to the next authenticator, and the shape of
@@ -21,6 +22,7 @@ import (
 	"go/printer"
 	"go/token"
 	"os"
+	"os/exec"
 	"path/filepath"
 	"sort"
 	"strings"
@@ -57,7 +59,15 @@ func render(n ast.Node) string {
 	return strings.Join(strings.Fields(buf.String()), " ")
 }
 
-// sentinel returns the error kind if x is heimdall.ErrXxx
+const heimdallPkg = "github.com/dadrus/heimdall/internal/heimdall"
+
+// the names under which the file at hand imports package internal/heimdall (set by parse)
+var heimdallNames = map[string]bool{}
+
+// inside package internal/heimdall itself the sentinels are used without qualifier
+var inHeimdallPkg bool
+
+// sentinel returns the error kind if x is <heimdall>.ErrXxx, whatever the package is called in this file
 func sentinel(x ast.Expr) (string, bool) {
 	sel, ok := x.(*ast.SelectorExpr)
 	if !ok {
@@ -65,7 +75,7 @@ func sentinel(x ast.Expr) (string, bool) {
 	}
 
 	pkg, ok := sel.X.(*ast.Ident)
-	if !ok || pkg.Name != "heimdall" {
+	if !ok || !heimdallNames[pkg.Name] {
 		return "", false
 	}
 
@@ -165,6 +175,24 @@ func parse(path string) *ast.File {
 		fail(nil, "%v", err)
 	}
 
+	heimdallNames = map[string]bool{}
+	inHeimdallPkg = f.Name.Name == "heimdall" && strings.HasSuffix(filepath.Dir(path), "internal/heimdall")
+
+	for _, imp := range f.Imports {
+		if strings.Trim(imp.Path.Value, "\"`") != heimdallPkg {
+			continue
+		}
+
+		switch {
+		case imp.Name == nil:
+			heimdallNames["heimdall"] = true
+		case imp.Name.Name == "." || imp.Name.Name == "_":
+			fail(imp, "package internal/heimdall imported as %q", imp.Name.Name)
+		default:
+			heimdallNames[imp.Name.Name] = true
+		}
+	}
+
 	return f
 }
 
@@ -175,10 +203,11 @@ func isEntry(d ast.Decl) bool {
 	return ok && fd.Recv != nil && (fd.Name.Name == "Execute" || fd.Name.Name == "GetAuthData")
 }
 
-func factsOf(path string) fileFacts {
+func factsOf(path string, strict bool) fileFacts {
 	f := parse(path)
 	ff := fileFacts{}
 	inner := map[*ast.CallExpr]bool{}
+	defs := map[*ast.Ident]bool{}
 	accounted := 0
 
 	for _, decl := range f.Decls {
@@ -223,13 +252,26 @@ func factsOf(path string) fileFacts {
 				if k, ok := sentinel(v); ok && k == "argument" {
 					ff.argument++
 				}
+			case *ast.ValueSpec:
+				if inHeimdallPkg {
+					for _, name := range v.Names {
+						if name.Name == "ErrArgument" {
+							defs[name] = true
+						}
+					}
+				}
+			case *ast.Ident:
+				if inHeimdallPkg && v.Name == "ErrArgument" && !defs[v] {
+					ff.argument++
+					accounted++ // there is no constructor expression to account it to: reported as a mention
+				}
 			}
 
 			return true
 		})
 	}
 
-	if accounted != ff.argument {
+	if strict && accounted != ff.argument {
 		fail(f, "%s: heimdall.ErrArgument is mentioned %d times, but only %d times inside an error chain constructor",
 			path, ff.argument, accounted)
 	}
@@ -365,7 +407,35 @@ func composite(path string) string {
 
 		r := render(es)
 
-		return !strings.Contains(r, item+".") && !strings.Contains(r, recv+"[")
+		return !strings.Contains(r, item+".Execute(") && !strings.Contains(r, ".IsFallbackOnErrorAllowed(") &&
+			!strings.Contains(r, recv+"[")
+	}
+
+	// bookkeeping that cannot influence the loop: counters, assignments to other variables without calling the
+	// authenticator
+	harmless := func(st ast.Stmt) bool {
+		touches := func(e ast.Expr) bool {
+			r := render(e)
+
+			return r == subVar || r == errVar || r == idx || r == item || r == recv || strings.HasPrefix(r, recv+"[")
+		}
+
+		switch v := st.(type) {
+		case *ast.IncDecStmt:
+			return !touches(v.X)
+		case *ast.AssignStmt:
+			for _, l := range v.Lhs {
+				if _, ok := l.(*ast.Ident); !ok || touches(l) {
+					return false
+				}
+			}
+
+			r := render(v)
+
+			return !strings.Contains(r, ".Execute(") && !strings.Contains(r, ".IsFallbackOnErrorAllowed(")
+		}
+
+		return false
 	}
 
 	for _, st := range loop.Body.List {
@@ -384,7 +454,13 @@ func composite(path string) string {
 				}
 			}
 
-			fail(v, "unexpected assignment in the loop: %s", render(v))
+			if !harmless(v) {
+				fail(v, "unexpected assignment in the loop: %s", render(v))
+			}
+		case *ast.IncDecStmt:
+			if !harmless(v) {
+				fail(v, "unexpected statement in the loop: %s", render(v))
+			}
 		case *ast.IfStmt:
 			if !assigned || errBranch != nil || v.Init != nil || v.Else != nil || render(v.Cond) != errVar+" != nil" {
 				fail(v, "unexpected if statement in the loop")
@@ -434,6 +510,17 @@ func composite(path string) string {
 			}
 
 			breaks = true
+		case *ast.ReturnStmt:
+			// `return nil, err` is what `break` leads to
+			if guardIf == nil || len(v.Results) != 2 || render(v.Results[0]) != "nil" || render(v.Results[1]) != errVar {
+				fail(v, "unexpected return in the error branch: %s", render(v))
+			}
+
+			breaks = true
+		case *ast.IncDecStmt, *ast.AssignStmt:
+			if !harmless(v) {
+				fail(v, "unexpected statement in the error branch: %s", render(v))
+			}
 		default:
 			fail(st, "unexpected statement in the error branch: %s", render(st))
 		}
@@ -457,6 +544,10 @@ func composite(path string) string {
 			}
 
 			continues = true
+		case *ast.IncDecStmt, *ast.AssignStmt:
+			if !harmless(v) {
+				fail(v, "unexpected statement in the fallback branch: %s", render(v))
+			}
 		default:
 			fail(st, "unexpected statement in the fallback branch: %s", render(st))
 		}
@@ -503,6 +594,104 @@ func composite(path string) string {
 
 // ---------------------------------------------------------------------------------------------------------------
 
+// closure lists the directories of all packages of the module the given roots depend on (transitively, `go list
+// -deps`), the roots included
+func closure(root string) []string {
+	cmd := exec.Command("go", "list", "-deps", "-f", "{{if not .Standard}}{{.ImportPath}}\t{{.Dir}}{{end}}",
+		"./internal/rules/mechanisms/authenticators/...", "./internal/cache/...",
+		"./internal/rules/mechanisms/contenttype/...")
+	cmd.Dir = root
+
+	var stderr bytes.Buffer
+
+	cmd.Stderr = &stderr
+
+	outp, err := cmd.Output()
+	if err != nil {
+		fail(nil, "go list -deps failed: %v: %s", err, stderr.String())
+	}
+
+	var dirs []string
+
+	for _, line := range strings.Split(strings.TrimSpace(string(outp)), "\n") {
+		parts := strings.Split(line, "\t")
+		if len(parts) != 2 || !strings.HasPrefix(parts[0], "github.com/dadrus/heimdall/") {
+			continue
+		}
+
+		if strings.Contains(parts[0], "/mocks") {
+			continue
+		}
+
+		dirs = append(dirs, parts[1])
+	}
+
+	if len(dirs) < 10 {
+		fail(nil, "go list -deps returned only %d packages of the module", len(dirs))
+	}
+
+	sort.Strings(dirs)
+
+	return dirs
+}
+
+// algorithms reads the list returned by supportedAlgorithms()
+func algorithms(path string) []string {
+	f := parse(path)
+
+	var res []string
+
+	found := false
+
+	for _, d := range f.Decls {
+		fd, ok := d.(*ast.FuncDecl)
+		if !ok || fd.Name.Name != "supportedAlgorithms" || fd.Recv != nil {
+			continue
+		}
+
+		found = true
+
+		if len(fd.Body.List) != 1 {
+			fail(fd, "supportedAlgorithms is expected to consist of one return statement")
+		}
+
+		ret, ok := fd.Body.List[0].(*ast.ReturnStmt)
+		if !ok || len(ret.Results) != 1 {
+			fail(fd, "supportedAlgorithms is expected to consist of one return statement")
+		}
+
+		lit, ok := ret.Results[0].(*ast.CompositeLit)
+		if !ok {
+			fail(ret, "supportedAlgorithms is expected to return a composite literal")
+		}
+
+		for _, e := range lit.Elts {
+			sel, ok := e.(*ast.SelectorExpr)
+			if !ok {
+				fail(e, "unexpected element %s", render(e))
+			}
+
+			if pkg, ok := sel.X.(*ast.Ident); !ok || pkg.Name != "jose" {
+				fail(e, "unexpected element %s", render(e))
+			}
+
+			switch sel.Sel.Name {
+			case "ES256", "ES384", "ES512", "EdDSA", "PS256", "PS384", "PS512", "RS256", "RS384", "RS512", "HS256",
+				"HS384", "HS512":
+				res = append(res, "."+sel.Sel.Name)
+			default:
+				fail(e, "unknown signature algorithm %s", sel.Sel.Name)
+			}
+		}
+	}
+
+	if !found {
+		fail(f, "supportedAlgorithms not found")
+	}
+
+	return res
+}
+
 func main() {
 	if len(os.Args) != 2 {
 		fail(nil, "usage: authn <repository root>")
@@ -537,21 +726,22 @@ func main() {
 	for _, n := range named {
 		path := filepath.Join(adir, n.file)
 		known[path] = true
-		ff := factsOf(path)
+		ff := factsOf(path, true)
 		fmt.Fprintf(&out, "/-- `%s` -/\ndef %s : FileFacts :=\n  { entry := %s,\n    others := %s,\n    loose := %s }\n\n",
 			n.file, n.lean, leanSites(ff.entry), leanSites(ff.others), leanList(ff.loose))
 	}
 
-	// every other non-test source file of the packages the authenticators call into: mentions of ErrArgument
-	var others []string
+	// every other non-test source file of the module that the authenticators (and the cache implementations and body
+	// decoders they meet at run time) depend on, transitively: mentions of ErrArgument
+	var (
+		others []string
+		pkgs   int
+	)
 
-	for _, dir := range []string{
-		"internal/rules/mechanisms/authenticators", "internal/rules/mechanisms/authenticators/extractors",
-		"internal/rules/mechanisms/oauth2", "internal/rules/mechanisms/subject", "internal/rules/mechanisms/template",
-		"internal/rules/mechanisms/contenttype", "internal/rules/endpoint", "internal/rules/endpoint/authstrategy",
-		"internal/x/pkix", "internal/x/errorchain", "internal/truststore", "internal/cache", "internal/cache/noop",
-	} {
-		entries, err := os.ReadDir(filepath.Join(root, dir))
+	for _, dir := range closure(root) {
+		pkgs++
+
+		entries, err := os.ReadDir(dir)
 		if err != nil {
 			fail(nil, "%v", err)
 		}
@@ -562,22 +752,24 @@ func main() {
 				continue
 			}
 
-			path := filepath.Join(root, dir, name)
+			path := filepath.Join(dir, name)
 			if known[path] {
 				continue
 			}
 
-			ff := factsOf(path)
+			ff := factsOf(path, false)
 			if ff.argument != 0 {
-				others = append(others, fmt.Sprintf("%s/%s: %d", dir, name, ff.argument))
+				rel, _ := filepath.Rel(root, path)
+				others = append(others, fmt.Sprintf("%s: %d", rel, ff.argument))
 			}
 		}
 	}
 
 	sort.Strings(others)
 
-	fmt.Fprintf(&out, "/-- mentions of `heimdall.ErrArgument` in any other source file of the authenticators' package and of the\n"+
-		"packages they call into (oauth2, subject, template, contenttype, endpoint, pkix, errorchain, truststore, cache)%s -/\n",
+	fmt.Fprintf(&out, "/-- mentions of the sentinel `ErrArgument` (under whatever name package `internal/heimdall` is imported) in any\n"+
+		"other source file of the %d packages of the module that the authenticators, the cache implementations and the body\n"+
+		"decoders depend on (`go list -deps`)%s -/\n", pkgs,
 		func() string {
 			if len(others) == 0 {
 				return ""
@@ -586,6 +778,9 @@ func main() {
 			return ": " + strings.Join(others, "; ")
 		}())
 	fmt.Fprintf(&out, "def argumentMentionsElsewhere : Nat := %d\n\n", len(others))
+
+	fmt.Fprintf(&out, "/-- `supportedAlgorithms()` (`supported_algorithms.go`): what `jwt.ParseSigned` is told to accept -/\n"+
+		"def supportedAlgorithms : List Alg :=\n  %s\n\n", leanList(algorithms(filepath.Join(adir, "supported_algorithms.go"))))
 
 	fmt.Fprintf(&out, "/-- `compositeSubjectCreator.Execute` (`internal/rules/composite_subject_creator.go`): one loop over the\n"+
 		"authenticators in order, the first success is returned, a failure leads to the next authenticator under this\n"+
